@@ -54,6 +54,12 @@ class IrGenerator:
             temp_replacement = IdMap()
 
             def find_temporaries(obj, access: AccessFlags):
+                # the always expression is emitted outside of the process
+                # that declares the variables of the sequential context
+                assert not isinstance(
+                    obj, Variable
+                ), "variables cannot be used in always expressions"
+
                 if isinstance(obj, Temporary):
                     parent = obj._root
 
